@@ -180,9 +180,16 @@ WrapPre(w) == CASE w = "-" -> <<>>
                 [] w = "g" -> <<"function", "*", "w", "(", ")", "{">>
                 [] w = "a" -> <<"async", "function", "w", "(", ")", "{">>
                 [] w = "ag" -> <<"async", "function", "*", "w", "(", ")", "{">>
-WrapPost(w) == IF w = "-" THEN <<>> ELSE <<"}">>
+(* the wrapper is also invoked, so that the wrapped expression is executed by the probe runs *)
+WrapPost(w) == CASE w = "-" -> <<>>
+                 [] w = "g" -> <<"}", "[", "...", "w", "(", ")", "]", ";">>
+                 [] w = "a" -> <<"}", "w", "(", ")", ";">>
+                 [] w = "ag" -> <<"}", "w", "(", ")", ".", "next", "(", ")", ";">>
 WrapSa(w) == IF w = "-" THEN "" ELSE "(fndecl " \o w \o " w (params) (body "
-WrapSb(w) == IF w = "-" THEN "" ELSE "))"
+WrapSb(w) == CASE w = "-" -> ""
+               [] w = "g" -> ")) (expr (arr (spread (call (id w)))))"
+               [] w = "a" -> ")) (expr (call (id w)))"
+               [] w = "ag" -> ")) (expr (call (dot (call (id w)) next)))"
 
 (* trees admissible in a skeleton *)
 Admissible(t, n) ==
